@@ -46,6 +46,7 @@ fn alpha(cfg: &Cfg) -> Vec<Op> {
         c(Decstbm(Some(2), Some(rows))),
         c(Decstbm(Some(2), Some(rows.saturating_sub(1)))),
         c(sgr1(41)),
+        c(sgr1(1)),
         c(sgr1(0)),
     ];
     v.push(Op::resize(cfg.cols + 1, cfg.rows));
